@@ -262,19 +262,33 @@ def try_submit(config_file, wd):
     from jade.jobs.job_configuration_factory import create_config_from_file
     from jade.jobs.job_submitter import JobSubmitter
 
+    import signal
+
+    class Hang(Exception):
+        pass
+
+    def on_alarm(signum, frame):
+        raise Hang("submission did not return within 30 s (wall-clock watchdog)")
+
     out = os.path.join(wd, "out")
     shutil.rmtree(out, ignore_errors=True)
     _calls.clear()
     cwd = os.getcwd()
     os.chdir(wd)
+    old_h = signal.signal(signal.SIGALRM, on_alarm)
+    signal.alarm(30)
     try:
         try:
             cfg = create_config_from_file(config_file)
             ret = JobSubmitter.run_submit_jobs(cfg, "out")
             return None, len(_calls), ret
+        except Hang as e:
+            return None, len(_calls), f"HANG: {e}"
         except BaseException as e:  # noqa
             return e, len(_calls), None
     finally:
+        signal.alarm(0)
+        signal.signal(signal.SIGALRM, old_h)
         os.chdir(cwd)
 
 
@@ -325,6 +339,8 @@ def chunk(args, ctx, wdir):
         nacc += 1
         if exc is not None:
             viol("valid-config-rejected", f"valid configuration rejected with {exc!r}")
+        elif isinstance(ret, str) and ret.startswith("HANG"):
+            viol("valid-config-hangs", f"submission of a valid configuration hangs: {ret}")
         elif ncalls < 1:
             viol("valid-config-not-submitted", f"valid configuration accepted (ret={ret}) but nothing was handed to the HPC")
         # each single injected invalidity
